@@ -756,6 +756,28 @@ impl VerifBox for IdentityBox {
                 }
                 crate::transport::tcp::verif_c01_tcp::transport_dial(via, host, d, l, expected)
             }
+            // `impl Stream for TcpTransport` under an executor's polling discipline (scripted ready results)
+            ["pn", rest @ ..] => {
+                let args = kv(rest);
+                if rest.iter().any(|a| !a.contains('=')) {
+                    return "bad-op".into();
+                }
+                let items: Vec<&str> = match args.get("q").copied() {
+                    None | Some("-") => Vec::new(),
+                    Some(q) => q.split(',').collect(),
+                };
+                if items.len() > 12 || items.iter().any(|i| !crate::transport::tcp::verif_c01_tcp::PN_ITEMS.contains(i)) {
+                    return "bad-op".into();
+                }
+                let small = |k: &str, max: usize| match args.get(k) {
+                    None => Some(0usize),
+                    Some(s) => s.parse::<usize>().ok().filter(|v| *v <= max),
+                };
+                let (Some(inbound), Some(acc), Some(neg)) = (small("in", 4), small("acc", 1), small("neg", 1)) else {
+                    return "bad-op".into();
+                };
+                crate::transport::tcp::verif_c01_tcp::poll_script(&items, inbound, acc == 1, neg == 1)
+            }
             _ => "bad-op".into(),
         }
     }
